@@ -1,0 +1,242 @@
+//go:build verif
+
+package rockredis
+
+// Exported wrappers of the unexported key encoders / decoders / range builders and of the
+// constants they use, for the verification harness (/verif, property C12 and later C13).
+// Built only with -tags verif; no behaviour of its own: every function is a single call.
+
+// VerifConsts returns the (mostly unexported) constants the key codec is built from.
+func VerifConsts() map[string]int64 {
+	return map[string]int64{
+		"enc_group_size": encGroupSize, "enc_marker": int64(encMarker), "enc_pad": int64(encPad),
+		"nil_flag": int64(NilFlag), "bytes_flag": int64(bytesFlag), "int_flag": int64(intFlag),
+		"uint_flag": int64(uintFlag), "float_flag": int64(floatFlag), "max_flag": int64(maxFlag),
+		"table_start_sep": int64(tableStartSep), "col_start_sep": int64(colStartSep),
+		"table_index_meta_start_sep": int64(tableIndexMetaStartSep), "meta_sep": int64(metaSep),
+		"coll_start_sep": int64(collStartSep), "coll_stop_sep": int64(collStopSep),
+		"zset_key_sep": int64(zsetKeySep), "zset_score_sep": int64(zsetScoreSep), "zset_mem_sep": int64(zsetMemSep),
+		"default_sep": int64(defaultSep), "j_sep": int64(jSep), "hindex_start_sep": int64(hindexStartSep),
+		"hset_index_meta": int64(hsetIndexMeta), "hset_index_data_type": int64(hsetIndexDataType),
+		"list_min_seq": listMinSeq, "list_max_seq": listMaxSeq, "list_initial_seq": listInitialSeq,
+		"table_meta_type": int64(TableMetaType), "table_index_meta_type": int64(TableIndexMetaType),
+		"kv_type": int64(KVType), "hash_type": int64(HashType), "hsize_type": int64(HSizeType),
+		"list_type": int64(ListType), "lmeta_type": int64(LMetaType), "zset_type": int64(ZSetType),
+		"zsize_type": int64(ZSizeType), "zscore_type": int64(ZScoreType), "set_type": int64(SetType),
+		"ssize_type": int64(SSizeType), "json_type": int64(JSONType), "bitmap_type": int64(BitmapType),
+		"bitmap_meta_type": int64(BitmapMetaType), "index_data_type": int64(IndexDataType),
+		"exp_time_type": int64(ExpTimeType), "exp_meta_type": int64(ExpMetaType),
+		"max_key_size": int64(MaxKeySize), "max_sub_key_len": int64(MaxSubKeyLen),
+		"max_table_name_len": int64(MaxTableNameLen),
+	}
+}
+
+// VerifMetaPrefix returns the "meta:" prefix of the size/meta keys.
+func VerifMetaPrefix() []byte { return append([]byte{}, metaPrefix...) }
+
+// ---- memcomparable codec (unexported parts) ----
+
+func VerifPeek(b []byte) (int, error)                    { return peek(b) }
+func VerifPeekBytes(b []byte, reverse bool) (int, error) { return peekBytes(b, reverse) }
+func VerifEncodeIntToCmpUint(v int64) uint64             { return encodeIntToCmpUint(v) }
+func VerifDecodeCmpUintToInt(u uint64) int64             { return decodeCmpUintToInt(u) }
+func VerifEncodeFloatToCmpUint64(f float64) uint64       { return encodeFloatToCmpUint64(f) }
+func VerifDecodeCmpUintToFloat(u uint64) float64         { return decodeCmpUintToFloat(u) }
+func VerifEncodeVerKey(ver int64, key []byte) []byte {
+	return encodeVerKey(&headerMetaValue{ValueVersion: ver}, key)
+}
+func VerifDecodeVerKey(b []byte) ([]byte, int64, error) { return decodeVerKey(b) }
+
+// ---- table level ----
+
+func VerifCheckTableName(table []byte) error { return checkTableName(table) }
+func VerifExtractTableFromRedisKey(key []byte) ([]byte, []byte, error) {
+	return extractTableFromRedisKey(key)
+}
+func VerifPackRedisKey(table, key []byte) []byte        { return packRedisKey(table, key) }
+func VerifEncodeTableMetaKey(table []byte) []byte       { return encodeTableMetaKey(table) }
+func VerifDecodeTableMetaKey(tk []byte) ([]byte, error) { return decodeTableMetaKey(tk) }
+func VerifEncodeTableMetaStartKey() []byte              { return encodeTableMetaStartKey() }
+func VerifEncodeTableMetaStopKey() []byte               { return encodeTableMetaStopKey() }
+func VerifEncodeTableIndexMetaKey(table []byte, itype byte) []byte {
+	return encodeTableIndexMetaKey(table, itype)
+}
+func VerifDecodeTableIndexMetaKey(tk []byte) (byte, []byte, error) {
+	return decodeTableIndexMetaKey(tk)
+}
+func VerifEncodeTableIndexMetaStartKey(itype byte) []byte    { return encodeTableIndexMetaStartKey(itype) }
+func VerifEncodeTableIndexMetaStopKey(itype byte) []byte     { return encodeTableIndexMetaStopKey(itype) }
+func VerifEncodeDataTableStart(dt byte, table []byte) []byte { return encodeDataTableStart(dt, table) }
+func VerifEncodeDataTableEnd(dt byte, table []byte) []byte   { return encodeDataTableEnd(dt, table) }
+func VerifDecodeDataTablePrefixFromBuf(buf []byte, dt byte) ([]byte, int, error) {
+	return decodeDataTablePrefixFromBuf(buf, dt)
+}
+
+// VerifTableRange is one [Start, Limit) engine range of a whole-table operation.
+type VerifTableRange struct{ Start, Limit []byte }
+
+func VerifGetTableDataRange(dt byte, table, start, end []byte) ([]VerifTableRange, error) {
+	rgs, err := getTableDataRange(dt, table, start, end)
+	out := make([]VerifTableRange, 0, len(rgs))
+	for _, r := range rgs {
+		out = append(out, VerifTableRange{r.Start, r.Limit})
+	}
+	return out, err
+}
+func VerifGetTableMetaRange(dt byte, table, start, end []byte) ([]byte, []byte, error) {
+	return getTableMetaRange(dt, table, start, end)
+}
+
+// ---- kv and meta keys ----
+
+func VerifConvertRedisKeyToDBKVKey(key []byte) ([]byte, []byte, error) {
+	return convertRedisKeyToDBKVKey(key)
+}
+func VerifCheckKeySize(key []byte) error                        { return checkKeySize(key) }
+func VerifCheckCollKFSize(key, field []byte) error              { return checkCollKFSize(key, field) }
+func VerifEncodeKVKey(key []byte) []byte                        { return encodeKVKey(key) }
+func VerifDecodeKVKey(ek []byte) ([]byte, error)                { return decodeKVKey(ek) }
+func VerifEncodeMetaKey(dt byte, key []byte) ([]byte, error)    { return encodeMetaKey(dt, key) }
+func VerifHEncodeSizeKey(key []byte) []byte                     { return hEncodeSizeKey(key) }
+func VerifHDecodeSizeKey(ek []byte) ([]byte, error)             { return hDecodeSizeKey(ek) }
+func VerifSEncodeSizeKey(key []byte) []byte                     { return sEncodeSizeKey(key) }
+func VerifSDecodeSizeKey(ek []byte) ([]byte, error)             { return sDecodeSizeKey(ek) }
+func VerifZEncodeSizeKey(key []byte) []byte                     { return zEncodeSizeKey(key) }
+func VerifZDecodeSizeKey(ek []byte) ([]byte, error)             { return zDecodeSizeKey(ek) }
+func VerifLEncodeMetaKey(key []byte) []byte                     { return lEncodeMetaKey(key) }
+func VerifLDecodeMetaKey(ek []byte) ([]byte, error)             { return lDecodeMetaKey(ek) }
+func VerifLEncodeMinKey() []byte                                { return lEncodeMinKey() }
+func VerifLEncodeMaxKey() []byte                                { return lEncodeMaxKey() }
+func VerifBitEncodeMetaKey(key []byte) []byte                   { return bitEncodeMetaKey(key) }
+func VerifBitDecodeMetaKey(ek []byte) ([]byte, error)           { return bitDecodeMetaKey(ek) }
+func VerifDecodeScanKey(dt byte, ek []byte) ([]byte, error)     { return decodeScanKey(dt, ek) }
+func VerifEncodeScanKey(dt byte, key []byte) ([]byte, error)    { return encodeScanKey(dt, key) }
+func VerifEncodeScanMinKey(dt byte, key []byte) ([]byte, error) { return encodeScanMinKey(dt, key) }
+func VerifEncodeScanMaxKey(dt byte, key []byte) ([]byte, error) { return encodeScanMaxKey(dt, key) }
+func VerifEncodeScanKeyTableEnd(dt byte, key []byte) ([]byte, error) {
+	return encodeScanKeyTableEnd(dt, key)
+}
+
+// ---- collections: hash / set / zset member keys ----
+
+// VerifEncodeCollSubKey panics for a data type other than hash/set/zset, as encodeCollSubKey does.
+func VerifEncodeCollSubKey(dt byte, table, key, subkey []byte) []byte {
+	return encodeCollSubKey(dt, table, key, subkey)
+}
+func VerifDecodeCollSubKey(dbk []byte) (byte, []byte, []byte, []byte, error) {
+	return decodeCollSubKey(dbk)
+}
+func VerifConvertCollDBKeyToRawKey(dbk []byte) (byte, []byte, int64, error) {
+	return convertCollDBKeyToRawKey(dbk)
+}
+func VerifHEncodeHashKey(table, key, field []byte) []byte           { return hEncodeHashKey(table, key, field) }
+func VerifHDecodeHashKey(ek []byte) ([]byte, []byte, []byte, error) { return hDecodeHashKey(ek) }
+func VerifHEncodeStartKey(table, key []byte) []byte                 { return hEncodeStartKey(table, key) }
+func VerifHEncodeStopKey(table, key []byte) []byte                  { return hEncodeStopKey(table, key) }
+func VerifSEncodeSetKey(table, key, member []byte) []byte           { return sEncodeSetKey(table, key, member) }
+func VerifSDecodeSetKey(ek []byte) ([]byte, []byte, []byte, error)  { return sDecodeSetKey(ek) }
+func VerifSEncodeStartKey(table, key []byte) []byte                 { return sEncodeStartKey(table, key) }
+func VerifSEncodeStopKey(table, key []byte) []byte                  { return sEncodeStopKey(table, key) }
+func VerifZEncodeSetKey(table, key, member []byte) []byte           { return zEncodeSetKey(table, key, member) }
+func VerifZDecodeSetKey(ek []byte) ([]byte, []byte, []byte, error)  { return zDecodeSetKey(ek) }
+func VerifZEncodeStartSetKey(table, key []byte) []byte              { return zEncodeStartSetKey(table, key) }
+func VerifZEncodeStopSetKey(table, key []byte) []byte               { return zEncodeStopSetKey(table, key) }
+
+// ---- zset score index ----
+
+func VerifZEncodeScoreKey(stopKey, stopMember bool, table, key, member []byte, score float64) []byte {
+	return zEncodeScoreKey(stopKey, stopMember, table, key, member, score)
+}
+func VerifZEncodeStartScoreKey(table, key []byte, score float64) []byte {
+	return zEncodeStartScoreKey(table, key, score)
+}
+func VerifZEncodeStopScoreKey(table, key []byte, score float64) []byte {
+	return zEncodeStopScoreKey(table, key, score)
+}
+func VerifZEncodeStartKey(table, key []byte) []byte { return zEncodeStartKey(table, key) }
+func VerifZEncodeStopKey(table, key []byte) []byte  { return zEncodeStopKey(table, key) }
+func VerifZDecodeScoreKey(ek []byte) ([]byte, []byte, []byte, float64, error) {
+	return zDecodeScoreKey(ek)
+}
+
+// ---- list ----
+
+func VerifLEncodeListKey(table, key []byte, seq int64) []byte      { return lEncodeListKey(table, key, seq) }
+func VerifLDecodeListKey(ek []byte) ([]byte, []byte, int64, error) { return lDecodeListKey(ek) }
+
+// ---- bitmap ----
+
+func VerifEncodeBitmapKey(table, key []byte, index int64) ([]byte, error) {
+	return encodeBitmapKey(table, key, index)
+}
+func VerifDecodeBitmapKey(ek []byte) ([]byte, []byte, int64, error) { return decodeBitmapKey(ek) }
+func VerifEncodeBitmapStartKey(table, key []byte, index int64) ([]byte, error) {
+	return encodeBitmapStartKey(table, key, index)
+}
+func VerifEncodeBitmapStopKey(table, key []byte) ([]byte, error) {
+	return encodeBitmapStopKey(table, key)
+}
+func VerifConvertRedisKeyToDBBitmapKey(key []byte, index int64) ([]byte, error) {
+	return convertRedisKeyToDBBitmapKey(key, index)
+}
+
+// ---- json ----
+
+func VerifEncodeJSONKey(table, key []byte) ([]byte, error) { return encodeJSONKey(table, key) }
+func VerifDecodeJSONKey(ek []byte) ([]byte, []byte, error) { return decodeJSONKey(ek) }
+func VerifEncodeJSONStartKey(table []byte) ([]byte, error) { return encodeJSONStartKey(table) }
+func VerifEncodeJSONStopKey(table, key []byte) []byte      { return encodeJSONStopKey(table, key) }
+
+// ---- expire keys ----
+
+func VerifExpEncodeTimeKey(dt byte, key []byte, when int64) []byte {
+	return expEncodeTimeKey(dt, key, when)
+}
+func VerifExpDecodeTimeKey(tk []byte) (byte, []byte, int64, error) { return expDecodeTimeKey(tk) }
+func VerifExpEncodeMetaKey(dt byte, key []byte) []byte             { return expEncodeMetaKey(dt, key) }
+func VerifExpDecodeMetaKey(mk []byte) (byte, []byte, error)        { return expDecodeMetaKey(mk) }
+
+// ---- hash secondary index ----
+
+func VerifEncodeHsetIndexNumberKey(table, indexName []byte, v int64, pk []byte, stopKey bool) ([]byte, error) {
+	return encodeHsetIndexNumberKey(table, indexName, v, pk, stopKey)
+}
+func VerifEncodeHsetIndexStringKey(table, indexName, v, pk []byte, stopKey bool) ([]byte, error) {
+	return encodeHsetIndexStringKey(table, indexName, v, pk, stopKey)
+}
+func VerifDecodeHsetIndexNumberKey(raw []byte) ([]byte, []byte, int64, []byte, error) {
+	return decodeHsetIndexNumberKey(raw)
+}
+func VerifDecodeHsetIndexStringKey(raw []byte) ([]byte, []byte, []byte, []byte, error) {
+	return decodeHsetIndexStringKey(raw)
+}
+func VerifEncodeHsetIndexStartKey(table, indexName []byte) []byte {
+	return encodeHsetIndexStartKey(table, indexName)
+}
+func VerifEncodeHsetIndexStopKey(table, indexName []byte) []byte {
+	return encodeHsetIndexStopKey(table, indexName)
+}
+
+// ---- scans (C13) ----
+
+func VerifEncodeFullScanMinKey(dt byte, table, key, cursor []byte) ([]byte, error) {
+	return encodeFullScanMinKey(dt, table, key, cursor)
+}
+func VerifEncodeFullScanKey(dt byte, table, key, cursor []byte) ([]byte, error) {
+	return encodeFullScanKey(dt, table, key, cursor)
+}
+func VerifDecodeFullScanKey(dt byte, ek []byte) ([]byte, []byte, []byte, error) {
+	return decodeFullScanKey(dt, ek)
+}
+func VerifBuildFullScanKeyRange(dt byte, table, key, cursor []byte) ([]byte, []byte, error) {
+	return buildFullScanKeyRange(dt, table, key, cursor)
+}
+func VerifEncodeSpecificDataScanMinKey(dt byte, table, key, cursor []byte) ([]byte, error) {
+	return encodeSpecificDataScanMinKey(dt, table, key, cursor)
+}
+func VerifEncodeSpecificDataScanMaxKey(dt byte, table, key, cursor []byte) ([]byte, error) {
+	return encodeSpecificDataScanMaxKey(dt, table, key, cursor)
+}
+func VerifEncodeSpecificDataScanKey(dt byte, table, rk, cursor []byte) ([]byte, error) {
+	return encodeSpecificDataScanKey(dt, table, rk, cursor)
+}
